@@ -330,6 +330,21 @@ impl Monitor for C20 {
                         v.push(format!("{prefix}{tail}"));
                     }
                 }
+                // zero-padded numbers of every text length: the value, not the length of the text, decides
+                let lens: Vec<usize> = if cfg!(miri) {
+                    (4..20).chain(254..262).chain(514..517).collect()
+                } else {
+                    (4..=1100).chain(65_530..=65_545).collect()
+                };
+                for len in lens {
+                    for digits in ["7", "118", "4294967295", "4294967296"] {
+                        if len >= 3 + digits.len() {
+                            let s = format!("HP:{}{digits}", "0".repeat(len - 3 - digits.len()));
+                            check_str(&s, &mut out);
+                            out.bucket("zero_padded_text_of_every_length");
+                        }
+                    }
+                }
                 for s in &v {
                     check_str(s, &mut out);
                 }
